@@ -48,32 +48,32 @@ var checks = map[string]checkCfg{
 		Stub:   []string{"network path and capture tap (netsim)", "wall clock", "map order", "snapshot interval knob"},
 		Assume: []string{"the one-shot import is the reference (tied to ground truth by C05)"}},
 	"C06": {Engine: "mgrsim", QuickS: 40, ThoroughS: 1200, Level: "exploration",
-		Rule:   "one case = one seeded plan (capture set, 4-20 tag/mark/converter API calls, import batches, view operations) under one seeded schedule of api/body/post/tick steps; after every step the incremental tag state and a freshly opened view (shown tags, tag searches) are compared with a from-scratch evaluation of every definition. distinct = distinct schedule signature (step labels with api ops abstracted to their kind); non-trivial = an import, API call or merge was applied while another job was in flight",
-		Real:   realCommon, Stub: stubCommon,
+		Rule: "one case = one seeded plan (capture set, 4-20 tag/mark/converter API calls, import batches, view operations) under one seeded schedule of api/body/post/tick steps; after every step the incremental tag state and a freshly opened view (shown tags, tag searches) are compared with a from-scratch evaluation of every definition. distinct = distinct schedule signature (step labels with api ops abstracted to their kind); non-trivial = an import, API call or merge was applied while another job was in flight",
+		Real: realCommon, Stub: stubCommon,
 		Assume: []string{"one quiescent index.SearchStreams evaluation of a definition is the reference (C02/C04 are not claimed)", "converter-reading definitions are not judged while a converter job is between body and completion"}},
 	"C07": {Engine: "mgrsim", QuickS: 40, ThoroughS: 1200, Level: "exploration",
-		Rule:   "one case = one seeded plan and schedule; at every applied merge completion the visible state (all streams with metadata, payload, packet references, shown tags) and a battery of ~20 searches is taken through fresh views immediately before and after and must be identical; at the end every suffix of the final stack is merged with index.Merge in a scratch directory and compared. distinct = distinct schedule signature; non-trivial = at least one merge was applied",
-		Real:   realCommon, Stub: stubCommon,
+		Rule: "one case = one seeded plan and schedule; at every applied merge completion the visible state (all streams with metadata, payload, packet references, shown tags) and a battery of ~20 searches is taken through fresh views immediately before and after and must be identical; at the end every suffix of the final stack is merged with index.Merge in a scratch directory and compared. distinct = distinct schedule signature; non-trivial = at least one merge was applied",
+		Real: realCommon, Stub: stubCommon,
 		Assume: []string{"searches in the battery use total sort orders (unique first-packet times by construction, id as last key)"}},
 	"C09": {Engine: "mgrsim", QuickS: 40, ThoroughS: 1200, Level: "exploration",
-		Rule:   "one case = one seeded plan and schedule including slow jobs and converter transient failures; after the last API call the controller keeps choosing enabled background steps until none is enabled; violation = a step that never returns (watchdog 30 s), more than 200+40(T+1)(F+C+1) drain steps, or no step enabled while queue/flags/uncertain/to-convert are non-empty. distinct = distinct schedule signature; non-trivial = overlap of jobs and API calls",
-		Real:   realCommon, Stub: stubCommon,
+		Rule: "one case = one seeded plan and schedule including slow jobs and converter transient failures; after the last API call the controller keeps choosing enabled background steps until none is enabled; violation = a step that never returns (watchdog 30 s), more than 200+40(T+1)(F+C+1) drain steps, or no step enabled while queue/flags/uncertain/to-convert are non-empty. distinct = distinct schedule signature; non-trivial = overlap of jobs and API calls",
+		Real: realCommon, Stub: stubCommon,
 		Assume: []string{"watchdog 30 s real time is far above the slowest step (<1 s)"}},
 	"C10": {Engine: "mgrsim", QuickS: 40, ThoroughS: 1200, Level: "exploration",
-		Rule:   "one case = one seeded plan and schedule; views are opened at seeded steps (empty service, between import body and completion, across merges) and compared (a) with a one-shot reference import of exactly the captures whose completion was applied, (b) with themselves at every later read. distinct = distinct schedule signature; non-trivial = a view was opened while jobs were in flight or re-read after further steps",
-		Real:   realCommon, Stub: stubCommon,
+		Rule: "one case = one seeded plan and schedule; views are opened at seeded steps (empty service, between import body and completion, across merges) and compared (a) with a one-shot reference import of exactly the captures whose completion was applied, (b) with themselves at every later read. distinct = distinct schedule signature; non-trivial = a view was opened while jobs were in flight or re-read after further steps",
+		Real: realCommon, Stub: stubCommon,
 		Assume: []string{"a view counts as opened at its first use", "one-shot import is the reference (C05/C08)"}},
 	"C11": {Engine: "mgrsim", QuickS: 40, ThoroughS: 1200, Level: "exploration",
-		Rule:   "one case = one seeded sequence of valid and invalid tag API calls (bad names, dangling/self/cyclic references, marks on stream 0 and unknown ids, unknown converters, renames onto existing names) interleaved with jobs; after every call the tag table projection is compared with a model (rejected => unchanged, accepted => exactly the requested change), the graph is checked (no dangling reference, no cycle, referenced mirrors definitions); a crash of the worker or a watchdog timeout is a violation. distinct = distinct schedule signature",
-		Real:   realCommon, Stub: stubCommon,
+		Rule: "one case = one seeded sequence of valid and invalid tag API calls (bad names, dangling/self/cyclic references, marks on stream 0 and unknown ids, unknown converters, renames onto existing names) interleaved with jobs; after every call the tag table projection is compared with a model (rejected => unchanged, accepted => exactly the requested change), the graph is checked (no dangling reference, no cycle, referenced mirrors definitions); a crash of the worker or a watchdog timeout is a violation. distinct = distinct schedule signature",
+		Real: realCommon, Stub: stubCommon,
 		Assume: []string{"which of {applied, rejected} happens is only prescribed where the property names it"}},
 	"C12": {Engine: "mgrsim", QuickS: 50, ThoroughS: 1500, Level: "fault_enumeration",
-		Rule:   "one case = one crash state: during a seeded run the data directory is copied at every I/O point (file create/write/flush/close/remove in manager, builder, index writer, snapshots, cache file) at which the tree changed, plus torn tails of the file being written; each distinct tree is restarted with manager.New, drained and compared with the model as of the snapshot instant (acknowledged tags/settings/endpoints, streams of applied imports under old ids with reference content, converged tags). Clean Close+New restarts are the fault-free configuration. distinct = distinct tree hash restarted",
-		Real:   realCommon, Stub: stubCommon,
+		Rule: "one case = one crash state: during a seeded run the data directory is copied at every I/O point (file create/write/flush/close/remove in manager, builder, index writer, snapshots, cache file) at which the tree changed, plus torn tails of the file being written; each distinct tree is restarted with manager.New, drained and compared with the model as of the snapshot instant (acknowledged tags/settings/endpoints, streams of applied imports under old ids with reference content, converged tags). Clean Close+New restarts are the fault-free configuration. distinct = distinct tree hash restarted",
+		Real: realCommon, Stub: stubCommon,
 		Assume: []string{"crash = process kill: the directory contents at that instant are the durable state (the code does not fsync)"}},
 	"C13": {Engine: "mgrsim", QuickS: 40, ThoroughS: 1200, Level: "exploration",
-		Rule:   "one case = one seeded plan and schedule with views held across imports, merges, tag and converter jobs; after every step: served and view files exist, use counts >= holders, every held view re-reads identically; at quiescence directory == served + view files and counts are exact; after releasing all views directory == served. distinct = distinct schedule signature; non-trivial = a view was held across a merge or opened during jobs",
-		Real:   realCommon, Stub: stubCommon,
+		Rule: "one case = one seeded plan and schedule with views held across imports, merges, tag and converter jobs; after every step: served and view files exist, use counts >= holders, every held view re-reads identically; at quiescence directory == served + view files and counts are exact; after releasing all views directory == served. distinct = distinct schedule signature; non-trivial = a view was held across a merge or opened during jobs",
+		Real: realCommon, Stub: stubCommon,
 		Assume: []string{"what jobs hold is internal: equalities only when no job exists"}},
 	"C15": {Engine: "cachesim", QuickS: 25, ThoroughS: 900, Level: "fault_enumeration",
 		Rule:   "one case = one seeded operation history on the real cache file (store with arbitrary chunk lists, invalidate, reset, reopen, compaction at seeded and shipped thresholds) compared with a map model after every operation; after every store the file is copied and truncated at every byte offset of the appended record and must open and serve all complete records. distinct = distinct (history hash) ; crash states counted separately",
@@ -81,8 +81,8 @@ var checks = map[string]checkCfg{
 		Stub:   []string{"compaction threshold knob", "no converter process (records are generated)"},
 		Assume: []string{"zero-length chunks carry no data and may vanish"}},
 	"C16": {Engine: "mgrsim", QuickS: 40, ThoroughS: 1200, Level: "exploration",
-		Rule:   "one case = one seeded plan with the harness converter attached/detached/reset, imports extending converted streams, on-demand conversions, transient converter failures, under a seeded schedule; after every step every cached output seen through a fresh view must carry the digest of that view's payload; at quiescence every decided match of a tag with a converter has output. distinct = distinct schedule signature; non-trivial = a converter job ran",
-		Real:   realCommon, Stub: stubCommon,
+		Rule: "one case = one seeded plan with the harness converter attached/detached/reset, imports extending converted streams, on-demand conversions, transient converter failures, under a seeded schedule; after every step every cached output seen through a fresh view must carry the digest of that view's payload; at quiescence every decided match of a tag with a converter has output. distinct = distinct schedule signature; non-trivial = a converter job ran",
+		Real: realCommon, Stub: stubCommon,
 		Assume: []string{"the harness converter prints a digest of its whole input"}},
 	"C19": {Engine: "httpsim", QuickS: 30, ThoroughS: 600, Level: "exploration",
 		Rule:   "one case = 2-3 concurrent uploads (same and different names) with bodies delivered chunk by chunk in a seeded interleaving, client aborts, downloads, and request paths from a path grammar; the tree outside the capture directory must be byte-identical, existing names keep their bytes, at most one upload per name succeeds, imports queued == 200 responses. distinct = distinct interleaving signature",
@@ -90,8 +90,8 @@ var checks = map[string]checkCfg{
 		Stub:   []string{"HTTP transport (in-process ServeHTTP, gated request bodies)"},
 		Assume: []string{"input-space coverage of path encodings is not claimed"}},
 	"C20": {Engine: "mgrsim", Race: true, QuickS: 60, ThoroughS: 1200, Level: "exploration",
-		Rule:   "one case = one seeded plan and schedule executed under the Go race detector with a happens-before-transparent control plane (raw-syscall pipes), 4 converter processes, an event listener and ticker steps; any DATA RACE report with a repository frame is a violation, signature = the pair of racing functions. distinct = distinct schedule signature",
-		Real:   realCommon, Stub: stubCommon,
+		Rule: "one case = one seeded plan and schedule executed under the Go race detector with a happens-before-transparent control plane (raw-syscall pipes), 4 converter processes, an event listener and ticker steps; any DATA RACE report with a repository frame is a violation, signature = the pair of racing functions. distinct = distinct schedule signature",
+		Real: realCommon, Stub: stubCommon,
 		Assume: []string{"the Go race detector; raw read/write system calls create no happens-before edges (probed)"}},
 }
 
@@ -253,21 +253,21 @@ func loadKnown() []knownFinding {
 }
 
 type agg struct {
-	mu         sync.Mutex
-	runs       int
-	counters   map[string]int64
-	sched      map[string]bool
-	nontriv    map[string]bool
-	states     map[string]bool
-	simTime    float64
-	samples    []json.RawMessage
-	viols      map[string]*outLine // first per key
-	violN      map[string]int
-	infra      []string
-	knownHit   map[string]int
-	knownMsg   map[string]string
-	wallMS     int64
-	crashes    []string
+	mu          sync.Mutex
+	runs        int
+	counters    map[string]int64
+	sched       map[string]bool
+	nontriv     map[string]bool
+	states      map[string]bool
+	simTime     float64
+	samples     []json.RawMessage
+	viols       map[string]*outLine // first per key
+	violN       map[string]int
+	infra       []string
+	knownHit    map[string]int
+	knownMsg    map[string]string
+	wallMS      int64
+	crashes     []string
 	raceReports map[string]string
 }
 
